@@ -190,6 +190,7 @@ func (fs LocalFileSystem) Create(ctx context.Context, name string, body io.ReadC
 	if !created {
 		seq := atomic.AddUint64(&uploadSeq, 1)
 		dst = filepath.Join(filepath.Dir(p), fmt.Sprintf(".webdav-put-%d-%d", os.Getpid(), seq))
+		dst = freeStagingName(dst)
 		flags |= os.O_EXCL
 	}
 
@@ -373,6 +374,7 @@ func (fs LocalFileSystem) Copy(ctx context.Context, src, dst string, options *Co
 	if !created {
 		seq := atomic.AddUint64(&uploadSeq, 1)
 		target = filepath.Join(filepath.Dir(dstPath), fmt.Sprintf(".webdav-copy-%d-%d", os.Getpid(), seq))
+		target = freeStagingName(target, "-replaced")
 	}
 
 	err = filepath.Walk(srcPath, func(p string, fi os.FileInfo, err error) error {
@@ -467,6 +469,7 @@ func (fs LocalFileSystem) Move(ctx context.Context, src, dst string, options *Mo
 	if !created {
 		seq := atomic.AddUint64(&uploadSeq, 1)
 		aside = filepath.Join(filepath.Dir(dstPath), fmt.Sprintf(".webdav-move-%d-%d", os.Getpid(), seq))
+		aside = freeStagingName(aside)
 		if err := os.Rename(dstPath, aside); err != nil {
 			return false, errFromOS(err)
 		}
@@ -484,4 +487,26 @@ func (fs LocalFileSystem) Move(ctx context.Context, src, dst string, options *Mo
 	}
 
 	return created, nil
+}
+
+// freeStagingName returns name, the name of a temporary entry of the server's
+// own, if nothing bears it yet - neither as it is nor with one of the suffixes
+// - and otherwise the first numbered variant of it that is free: a resource
+// that happens to be named like a temporary entry is never written to, renamed
+// over or removed.
+func freeStagingName(name string, suffixes ...string) string {
+	free := name
+	for {
+		taken := false
+		for _, suffix := range append([]string{""}, suffixes...) {
+			if _, err := os.Lstat(free + suffix); err == nil {
+				taken = true
+				break
+			}
+		}
+		if !taken {
+			return free
+		}
+		free = fmt.Sprintf("%s-%d", name, atomic.AddUint64(&uploadSeq, 1))
+	}
 }
